@@ -202,6 +202,35 @@ theorem window_ith (m : Nat) (vs : List Val) (i : Nat) (him : i < m) (hik : i < 
   simp only [← List.map_reverse, List.getElem?_map, Option.map_map]
   cases vs.reverse[i]? <;> rfl
 
+/-- **The property, for any sequence.** Over ANY sequence of writes at index 0 (overwrite or additive,
+    any number between two shifts, rejected ones included), reads, and shifts with a maximum depth
+    `m ≥ 1`, started on an empty storage: for every index `i < m` the slot `i` holds entry `i` of the
+    unbounded history of index 0 (`ghost`: the value index 0 had when the `i`-th most recent shift
+    happened; entry 0 = the latest write) — and is empty exactly if that history is shorter. -/
+theorem window_any_sequence (m : Nat) (hm : 0 < m) (ops : List Op) (hfix : ops.all (fixedOp m) = true)
+    (i : Nat) (hi : i < m) : lookup (exec [] ops) i = (ghost [] ops)[i]? := by
+  rw [(store_refines_window_from_empty ops (regular_fixed m ops hfix [])).2 i]
+  have := wexec_fixed m hm ops hfix []
+  simp only [List.take_nil] at this
+  rw [this, List.getElem?_take_of_lt hi]
+
+/-- … and nothing is ever stored at or beyond the depth. -/
+theorem window_any_sequence_depth (m : Nat) (hm : 0 < m) (ops : List Op) (hfix : ops.all (fixedOp m) = true)
+    (i : Nat) (hi : m ≤ i) : lookup (exec [] ops) i = none := by
+  rw [(store_refines_window_from_empty ops (regular_fixed m ops hfix [])).2 i]
+  have := wexec_fixed m hm ops hfix []
+  simp only [List.take_nil] at this
+  rw [this, List.getElem?_eq_none_iff]
+  simp only [List.length_take]
+  omega
+
+/-- several writes per epoch, a rejected additive write first, two shifts in a row: depth 2 -/
+example :
+    let ops : List Op := [.add 0 [1], .set 0 [1], .set 0 [2], .shift (some 2), .add 0 [10], .add 0 [10], .shift (some 2),
+                          .shift (some 2), .set 0 [5]]
+    ops.all (fixedOp 2) = true ∧ ghost [] ops = [[5], [22], [22], [2]] ∧
+      exec [] ops = [(0, [5]), (1, [22])] := by decide +kernel
+
 /-! ### the Newton pattern: additive increments at index 0 -/
 
 /-- **Sliding window, additive writes** (the pattern of `after_nonlinear_iteration`): after
@@ -489,6 +518,88 @@ theorem es_set_get_roundtrip_c05 (s : C05.State) (hnd : ((layoutOf s).map (·.1)
     esGet (layoutOf s) (esSet (layoutOf s) d values sel (tsArg loc i) (itArg loc i) false).1 sel
         (tsArg loc i) (itArg loc i) = .val values :=
   (es_set_get_roundtrip (layoutOf s) hnd d values sel loc i hlen).2
+
+/-! ### the un-shift of `_revert_time_dependent_boundary_values` -/
+
+/-- On a hole-free, non-empty history the un-shift never raises and drops the head of the window:
+    slot `i` receives what slot `i + 1` held, the last slot disappears. -/
+theorem unshift_refines {s : Store} {w : Window} (h : Repr s w) (hw : w ≠ []) :
+    (unshift s).2 = none ∧ Repr (unshift s).1 w.tail := by
+  have hlen := repr_length h
+  obtain ⟨a, t, rfl⟩ : ∃ a t, w = a :: t := by
+    cases w with
+    | nil => exact absurd rfl hw
+    | cons a t => exact ⟨a, t, rfl⟩
+  simp only [List.length_cons] at hlen
+  have hall : ∀ j, 0 ≤ j → j < 0 + (s.length - 1) → (lookup s (j + 1)).isSome = true := by
+    intro j _ hj
+    rw [h.2 (j + 1)]
+    have : j < t.length := by omega
+    simp [this]
+  have hl := unshiftLoop_spec 0 (s.length - 1) s hall
+  have hnd := unshiftLoop_nodup 0 (s.length - 1) s h.1
+  have hlast : lookup (unshiftLoop 0 (s.length - 1) s).1 (s.length - 1) = some a ∨
+      ∃ v, lookup (unshiftLoop 0 (s.length - 1) s).1 (s.length - 1) = some v := by
+    right
+    rw [hl.2]
+    have : ¬ (0 ≤ s.length - 1 ∧ s.length - 1 < 0 + (s.length - 1)) := by omega
+    rw [if_neg this, h.2]
+    have : s.length - 1 < (a :: t).length := by simp only [List.length_cons]; omega
+    exact ⟨_, List.getElem?_eq_getElem this⟩
+  obtain ⟨v, hv⟩ : ∃ v, lookup (unshiftLoop 0 (s.length - 1) s).1 (s.length - 1) = some v := by
+    rcases hlast with h1 | h1
+    · exact ⟨_, h1⟩
+    · exact h1
+  simp only [unshift, hl.1, if_true, hv]
+  refine ⟨trivial, nodup_keys_aerase _ _ hnd, fun j => ?_⟩
+  show alookup (aerase _ _) j = _
+  rw [alookup_aerase _ _ _ hnd]
+  by_cases hj : j = s.length - 1
+  · rw [if_pos hj]
+    symm
+    rw [List.getElem?_eq_none_iff]
+    simp only [List.tail_cons]; omega
+  · rw [if_neg hj]
+    show lookup _ j = _
+    rw [hl.2 j]
+    simp only [List.tail_cons]
+    by_cases h1 : 0 ≤ j ∧ j < 0 + (s.length - 1)
+    · rw [if_pos h1, h.2]; simp
+    · rw [if_neg h1, h.2]
+      have h2 : (a :: t)[j]? = none := by
+        rw [List.getElem?_eq_none_iff]; simp only [List.length_cons]; omega
+      have h3 : t[j]? = none := by
+        rw [List.getElem?_eq_none_iff]; omega
+      rw [h2, h3]
+
+/-- un-shift is the inverse of a shift that did not push a value out of the window -/
+theorem unshift_after_shift {s : Store} {w : Window} (h : Repr s w) (hw : w ≠ []) :
+    Repr (unshift (shift s none).1).1 w := by
+  have hs := (shift_refines h none).2
+  simp only [Option.map_none] at hs
+  obtain ⟨a, t, rfl⟩ : ∃ a t, w = a :: t := by
+    cases w with
+    | nil => exact absurd rfl hw
+    | cons a t => exact ⟨a, t, rfl⟩
+  have := (unshift_refines hs (by simp [wshift])).2
+  simpa [wshift] using this
+
+/-- the head of a non-empty window is dropped; on a store with a hole the loop raises `KeyError`
+    after having moved what it could -/
+example : unshift [(0, [1]), (1, [2]), (2, [3])] = ([(0, [2]), (1, [3])], none) := by decide +kernel
+example : unshift [(0, [1]), (2, [3])] = ([(0, [1]), (2, [3])], some .keyError) := by decide +kernel
+
+/-- boundary values: update at depth 2 twice, revert, update again reproduces the accepted history -/
+example :
+    let d1 := (bcUpdate [] "u" [1] 2).1
+    let d2 := (bcUpdate d1 "u" [2] 2).1
+    let d3 := (bcUpdate d2 "u" [3] 2).1
+    let d4 := (bcUpdate (bcRevert d3).1 "u" [4] 2).1
+    (dget d3 (.timeStep, "u") = some [(0, [2]), (1, [1])]) ∧ (bcRevert d3).2 = .ok ∧
+      dget (bcRevert d3).1 (.timeStep, "u") = some [(0, [1])] ∧
+      getSolutionValues (bcRevert d3).1 "u" none (some 0) = .val [2] ∧
+      dget d4 (.timeStep, "u") = some [(0, [2]), (1, [1])] ∧ getSolutionValues d4 "u" none (some 0) = .val [4] := by
+  decide +kernel
 
 /-! ### aliasing: the model with references -/
 
